@@ -7,6 +7,7 @@ ID="$1"
 exec 9>"$WORK/build.lock"; flock 9
 case "$ID" in
   C18) KIND=test18;;
+  C14) KIND=inst; CFG=c14; MAINPKG=vhc14; TARGETS="internal/par:work.go internal/mod/mvs:mvs.go";;
   *) KIND=plain;;
 esac
 case "$KIND" in
@@ -17,6 +18,14 @@ case "$KIND" in
       (cd /repo && go build -o "$WORK/bin/cue" ./cmd/cue) >&2
     fi
     echo "$WORK/bin/verifh";;
+  inst)
+    /verif/lib/gen_overlay.py "$WORK/overlay.json" >&2
+    (cd /repo && go build -overlay "$WORK/overlay.json" -o "$WORK/bin/instrument" ./internal/verif/cmd/instrument) >&2
+    rm -rf "$WORK/inst/$CFG"; mkdir -p "$WORK/inst/$CFG"
+    "$WORK/bin/instrument" -out "$WORK/inst/$CFG" $TARGETS > "$WORK/inst/$CFG/frag.json" || { echo "ENGINE-ERROR instrumenter failed" >&2; exit 2; }
+    /verif/lib/gen_overlay.py "$WORK/overlay-$CFG.json" "$WORK/inst/$CFG/frag.json" >&2
+    (cd /repo && go build -overlay "$WORK/overlay-$CFG.json" -o "$WORK/bin/verifh-$CFG" ./internal/verif/cmd/$MAINPKG) >&2
+    echo "$WORK/bin/verifh-$CFG";;
   test18)
     /verif/lib/gen_overlay.py "$WORK/overlay.json" >&2
     (cd /repo && go test -c -vet=off -overlay "$WORK/overlay.json" -o "$WORK/bin/c18.test" ./internal/verif/t/c18) >&2
